@@ -130,27 +130,72 @@ def run_world(ids, behs, life, delays, lags, rate, keep, consume=None):
     return out, world, eq, spans, journal
 
 
+def _b_ok(b0, b1, b2):
+    if ctx.S('beh') is not None:
+        return b0 == 0 and b1 == 0 and b2 == 0
+    return all(0 <= b < 6 for b in (b0, b1, b2))
+
+
+def _l_ok(l0, l1, l2):
+    if ctx.S('life') is not None:
+        return l0 == 0 and l1 == 0 and l2 in B('L2')      # the shard fixes the first two life-cycle kinds
+    return 0 <= l0 < 4 and 0 <= l1 < 4 and l2 in B('L2')
+
+
+def _d_ok(d):
+    ds = ctx.BOUNDS.get('DELAYS')
+    return (d in ds) if ds is not None else (0 <= d <= B('DMAX'))
+
+
+def scenario(b0, b1, b2, l0, l1, l2, d0, d1, d2, lag0, lag1, rate, n):
+    """turn the symbolic parameters into a concrete-by-fork scenario; dimensions the tier pins are pinned here, and
+    parameters that cannot influence the run (the delay of a worker that hangs or dies idle) are fixed"""
+    n = ctx.pick(n, B('NS'))
+    rate = ctx.pick(rate, B('RATES'))
+    sl = ctx.S('life')
+    l2k = LIFE[ctx.pick(l2, B('L2'))]
+    if sl is not None:
+        life = [sl[0], sl[1], l2k][:n]
+    else:
+        life = [LIFE[ctx.pick(x, range(4))] for x in (l0, l1)] + [l2k]
+        life = life[:n]
+    if ctx.S('beh') is not None:
+        behs = ([ctx.S('beh')] * 3)[:n]
+    else:
+        behs = [BEH[ctx.pick(b, range(6))] for b in (b0, b1, b2)][:n]
+    if ctx.BOUNDS.get('D2') is not None and d2 not in ctx.BOUNDS['D2']:
+        return None
+    delays = []
+    for d, k in zip((d0, d1, d2), life):
+        if k in ('hang', 'die_idle'):
+            if d != 0:
+                return None             # the delay of a worker that never answers is irrelevant: one representative
+            delays.append(0)
+        elif ctx.BOUNDS.get('DELAYS') is not None:
+            delays.append(ctx.pick(d, B('DELAYS')))
+        else:
+            delays.append(d)
+    lag0 = ctx.pick(lag0, range(B('LAG') + 1))
+    lag1 = ctx.pick(lag1, range(B('LAG') + 1))
+    ids = ['r0', 'r1', 'r2'][:n]
+    return ids, behs, life, delays, [lag0, lag1], rate
+
+
 def attribution(b0: int, b1: int, b2: int, l0: int, l1: int, l2: int, d0: int, d1: int, d2: int,
                 lag0: int, lag1: int, rate: int, keep: bool, n: int) -> bool:
     """
-    pre: all(0 <= b < 6 for b in (b0, b1, b2)) and all(0 <= x < 4 for x in (l0, l1, l2))
-    pre: all(0 <= d <= B('DMAX') for d in (d0, d1, d2)) and 0 <= lag0 <= B('LAG') and 0 <= lag1 <= B('LAG')
-    pre: 1 <= rate <= 3 and 2 <= n <= B('N')
+    pre: _b_ok(b0, b1, b2) and _l_ok(l0, l1, l2)
+    pre: all(_d_ok(d) for d in (d0, d1, d2)) and 0 <= lag0 <= B('LAG') and 0 <= lag1 <= B('LAG')
+    pre: rate in B('RATES') and n in B('NS') and keep in B('KEEPS')
     post: _
     """
     ctx.begin()
-    n = ctx.pick(n, range(2, B('N') + 1))
-    rate = ctx.pick(rate, (1, 2, 3))
-    sl = ctx.S('life')              # shard: life-cycle kinds of the first two recordings
-    behs = [BEH[ctx.pick(b, range(6))] for b in (b0, b1, b2)][:n]
-    if sl is not None:
-        life = [sl[0], sl[1], LIFE[ctx.pick(l2, range(4))]][:n]
-    else:
-        life = [LIFE[ctx.pick(x, range(4))] for x in (l0, l1, l2)][:n]
-    if ctx.S('beh') is not None:
-        behs = ([ctx.S('beh')] * 3)[:n]
-    delays = [d0, d1, d2][:n]
-    ids = ['r0', 'r1', 'r2'][:n]
+    sc_ = scenario(b0, b1, b2, l0, l1, l2, d0, d1, d2, lag0, lag1, rate, n)
+    if sc_ is None:
+        return ctx.done(True)
+    ids, behs, life, delays, lags, rate = sc_
+    lag0, lag1 = lags
+    n = len(ids)
     out, world, eq, spans, journal = run_world(ids, behs, life, delays, [lag0, lag1], rate, keep)
     ok = [c.recording_id for c in out] == ids
     limit_ticks = TIMEOUT_S * mpm.TPS
@@ -252,21 +297,97 @@ def worker_refines_contract(arrive: List[int], term_after: int, b0: int, b1: int
 
 
 _LIFE2 = [(a, b) for a in LIFE for b in LIFE]
+# quick: delays from the boundary-relevant tick values around the 2 s (8 tick) timeout and its 1 s polls; the third
+# recording is a prompt, healthy one (it is the victim that reveals a misattribution); thorough: everything symbolic
+QB = {'DMAX': 14, 'LAG': 1, 'NS': [3], 'RATES': [1, 3], 'KEEPS': [False], 'L2': [0], 'D2': [0], 'DELAYS': [0, 5, 8, 9, 12, 13]}
+TB = {'DMAX': 16, 'LAG': 2, 'NS': [2, 3], 'RATES': [1, 2, 3], 'KEEPS': [False, True], 'L2': [0, 1, 2, 3], 'DELAYS': None}
 CONDITIONS = [
     {'fn': 'attribution', 'nontrivial': 'worker-failure',
      'what': 'dedicated-process run over 2-3 recordings in the model world: labels, attached playbacks and verdicts; '
              'sharded by the life-cycle behaviour the first two tasks meet',
-     'tiers': {'quick': {'bounds': {'DMAX': 14, 'LAG': 1, 'N': 3}, 'timeout': 600,
-                         'shards': [{'life': list(p), 'beh': 'equal'} for p in _LIFE2] + [{'life': ['ok', 'ok']}],
+     'tiers': {'quick': {'bounds': QB, 'timeout': 600,
+                         'shards': [{'life': list(p), 'beh': 'equal'} for p in _LIFE2],
                          'witness_shard': {'life': ['ok', 'die'], 'beh': 'equal'}},
-               'thorough': {'bounds': {'DMAX': 16, 'LAG': 2, 'N': 3}, 'timeout': 6000,
-                            'shards': [{'life': list(p)} for p in _LIFE2], 'witness_shard': {'life': ['ok', 'die']}}}},
+               'thorough': {'bounds': TB, 'timeout': 8000,
+                            'shards': [{'life': list(p), 'beh': b} for p in _LIFE2 for b in ('equal', None)],
+                            'witness_shard': {'life': ['ok', 'die'], 'beh': 'equal'}}}},
     {'fn': 'modes_agree', 'nontrivial': 'failing-recording',
      'what': 'all per-recording behaviours x recycle rates x keep-results: in-process == dedicated',
-     'tiers': {'quick': {'bounds': {}, 'timeout': 400, 'shards': [{}]},
+     'tiers': {'quick': {'bounds': {}, 'timeout': 600, 'shards': [{}]},
                'thorough': {'bounds': {}, 'timeout': 1200, 'shards': [{}]}}},
     {'fn': 'worker_refines_contract', 'nontrivial': 'two-tasks',
      'what': 'the real _playback_process_target on model queues behaves as the worker contract used by the process model',
-     'tiers': {'quick': {'bounds': {}, 'timeout': 400, 'shards': [{}]},
+     'tiers': {'quick': {'bounds': {}, 'timeout': 600, 'shards': [{}]},
                'thorough': {'bounds': {}, 'timeout': 1200, 'shards': [{}]}}},
 ]
+
+
+REAL_MP_SCRIPT = r'''
+import sys, json, time as _time
+sys.path.insert(0, %r)
+import logging; logging.disable(logging.CRITICAL)
+import playback.studio.equalizer as eqm
+from playback.studio.equalizer import Equalizer, CompareExecutionConfig, EqualityStatus
+
+class Rec(object):
+    def __init__(self, rid): self.id = rid
+class PB(object):
+    def __init__(self, rid):
+        self.recorded_outputs = [rid]; self.playback_outputs = [rid]; self.original_recording = Rec(rid)
+PLAN = %r
+def player(rid):
+    kind, delay = PLAN[rid]
+    if kind == 'slow': _time.sleep(delay)
+    if kind == 'hang': _time.sleep(60)
+    if kind == 'die':
+        import os; os._exit(3)
+    return PB(rid)
+calls = {'n': 0, 'armed': False}
+def slow_time():
+    # deschedule the parent at its 3rd clock read while it waits for the armed recording (the loop-exit test)
+    if calls['armed']:
+        calls['n'] += 1
+        if calls['n'] == 3: _time.sleep(0.6)
+    return _time.time()
+eqm.time = slow_time
+ORDER = %r
+def ids():
+    for rid in ORDER:
+        calls['armed'] = (PLAN[rid][0] == 'slow'); calls['n'] = 0
+        yield rid
+eq = Equalizer(ids(), player, lambda outs: outs[0], lambda a, b: EqualityStatus.Equal,
+               compare_execution_config=CompareExecutionConfig(compare_in_dedicated_process=True, compare_process_timeout=1))
+out = [(c.recording_id, c.comparator_status.equality_status.name, c.playback.original_recording.id if c.playback else None)
+       for c in eq.run_comparison()]
+import multiprocessing
+_time.sleep(0.3)
+print('@@' + json.dumps({'out': out, 'children': len(multiprocessing.active_children())}))
+'''
+
+
+def validate_models():
+    """thorough tier only: three concrete plans on the REAL Equalizer with REAL multiprocessing (late answer just after
+    the timeout with a descheduled parent, a worker that dies, a worker that hangs): attribution must hold there too.
+    Model validation, not the deciding step."""
+    import subprocess
+    import sys
+    import json
+    import os
+    if os.environ.get('PBSYM_TIER') != 'thorough':
+        return []
+    src = os.environ.get('PB_SRC', '/repo')
+    res = []
+    for name, plan, order in (('late answer', {'r0': ('ok', 0), 'r1': ('slow', 1.3), 'r2': ('ok', 0)}, ['r0', 'r1', 'r2']),
+                              ('worker dies', {'r0': ('die', 0), 'r1': ('ok', 0)}, ['r0', 'r1']),
+                              ('worker hangs', {'r0': ('ok', 0), 'r1': ('hang', 0), 'r2': ('ok', 0)}, ['r0', 'r1', 'r2'])):
+        p = subprocess.run([sys.executable, '-c', REAL_MP_SCRIPT % (src, plan, order)], stdout=subprocess.PIPE,
+                           stderr=subprocess.PIPE, timeout=120)
+        out = p.stdout.decode()
+        if '@@' not in out:
+            res.append({'name': 'real multiprocessing: ' + name, 'vectors': 1, 'differences': 1, 'error': p.stderr.decode()[-300:]})
+            continue
+        d = json.loads(out[out.index('@@') + 2:])
+        bad = [o for o in d['out'] if o[2] is not None and o[2] != o[0]]
+        okk = [o[0] for o in d['out']] == order and not bad and d['children'] == 0
+        res.append({'name': 'real multiprocessing: ' + name, 'vectors': 1, 'differences': 0 if okk else 1, 'error': str(d)})
+    return res
